@@ -517,7 +517,7 @@ class History:
                 mut = ok
             elif op in ("read",):
                 name = "read"
-            elif op in ("stat", "lstat", "opendir"):
+            elif op in ("stat", "lstat", "opendir", "readdir"):
                 name = "stat"
             elif op == "fsync":
                 name = "fsync"
